@@ -2124,9 +2124,11 @@ func mangleNumber(t string) (string, bool) {
 	original := t
 
 	if dot := strings.IndexByte(t, '.'); dot != -1 {
-		// Remove trailing zeros
-		for len(t) > 0 && t[len(t)-1] == '0' {
-			t = t[:len(t)-1]
+		// Remove trailing zeros (but not the trailing zeros of an exponent)
+		if !strings.ContainsAny(t, "eE") {
+			for len(t) > 0 && t[len(t)-1] == '0' {
+				t = t[:len(t)-1]
+			}
 		}
 
 		// Remove the decimal point if it's unnecessary
